@@ -695,3 +695,8 @@ mutant("C03-M21", "C03", "R03e", "time grid snap with np.isclose defaults", PJ, 
 mutant("C04-M30", "C04", "R04f", "plain junction flush normalises only above 1", M, "JunctionCompartment.initial_flush", "            outflow_fractions /= np.sum(outflow_fractions)", "            if np.sum(outflow_fractions) > 1:\n                outflow_fractions /= np.sum(outflow_fractions)")
 mutant("C07-M30", "C07", "R07h", "plain junction flush normalises only above 1", M, "JunctionCompartment.initial_flush", "            outflow_fractions /= np.sum(outflow_fractions)", "            if np.sum(outflow_fractions) > 1:\n                outflow_fractions /= np.sum(outflow_fractions)")
 mutant("C06-M38", "C06", "R04e", "parameters not re-evaluated after the initial flush", M, "Model.process", "            self.update_pars()  # Update the transition parameters in case junction outflows are functions _and_ they depend on compartment sizes that just changed in the line above\n", "")
+mutant("C20-M23", "C20", "R20j", "same-named flows subtracted", PL, "PlotData.__init__", "data_dict[output_label] += link.vals", "data_dict[output_label] -= link.vals")
+mutant("C20-M24", "C20", "R20j", "flow total not annualised", PL, "PlotData.__init__", "                        data_dict[output_label] /= dt\n", "")
+mutant("C13-M22", "C13", "R13h", "'eligible' returns the proportion covered", RS, "Result.get_coverage", "                output = num_eligible", "                output = prop_coverage")
+mutant("C13-M23", "C13", "R13h", "every program's number coverage divided by dt", RS, "Result.get_coverage", "                if self.model.progset.programs[prog].is_one_off:\n                    output[prog] /= self.dt", "                output[prog] /= self.dt")
+mutant("C13-M24", "C13", "R13h", "reported capacities computed without the instructions", RS, "Result.get_coverage", "capacities = self.model.progset.get_capacities(tvec=self.t, dt=self.dt, instructions=self.model.program_instructions)", "capacities = self.model.progset.get_capacities(tvec=self.t, dt=self.dt, instructions=None)")
